@@ -236,16 +236,35 @@ def run_cases(cases, timeout=900, want_release=True):
     """cases: list of 'cmd args' strings.  Returns list of dicts {case, dev, rel, model, panic, ...}."""
     # a case starting with "!" is run on the implementation only (runtime facets: size doubling)
     lines = ["%d %s" % (i, c.lstrip("!")) for i, c in enumerate(cases)]
-    mlines = ["%d %s" % (i, c) for i, c in enumerate(cases) if not c.startswith("!")]
+    # model side: a `slices CTX A B ..` case (several headers parsed against ONE Context object in the crate) is, for the
+    # pure model, the list of its single parses `slice CTX A`, `slice CTX B`, .. - answered separately and joined by ";;"
+    mlines = []
+    for i, c in enumerate(cases):
+        if c.startswith("!"):
+            continue
+        if c.startswith("slices "):
+            p = c.split()
+            for k, src in enumerate(p[2:]):
+                mlines.append("%d.%d slice %s %s" % (i, k, p[1], src))
+        else:
+            mlines.append("%d %s" % (i, c))
     nsh = max(1, min(NPROC, len(lines) // 200 + 1))
-    shards = [lines[k::nsh] for k in range(nsh)]
-    mshards = [mlines[k::nsh] for k in range(nsh)]
+    # consecutive cases stay together in blocks of 16 (generators place related cases next to each other: state that leaks
+    # from one call into the next - a static, a thread_local cache, a pooled buffer - then meets the input it is wrong for)
+    shards = [[] for _ in range(nsh)]
+    for j, l in enumerate(lines):
+        shards[(j // 16) % nsh].append(l)
+    mshards = [[] for _ in range(nsh)]
+    for j, l in enumerate(mlines):
+        mshards[(j // 16) % nsh].append(l)
     jobs = []
     with ThreadPoolExecutor(max_workers=NPROC) as ex:
         for s, ms in zip(shards, mshards):
             jobs.append(("dev", ex.submit(run_binary, H_DEV, s, timeout)))
             if want_release:
-                jobs.append(("rel", ex.submit(run_binary, H_REL, s, timeout)))
+                # the release build answers the same cases in the opposite order: an answer that depends on what was
+                # parsed before shows up as a debug/release disagreement
+                jobs.append(("rel", ex.submit(run_binary, H_REL, list(reversed(s)), timeout)))
             if ms:
                 jobs.append(("model", ex.submit(run_binary, MODELRUN, ms, timeout)))
         outs = {"dev": {}, "rel": {}, "model": {}}
@@ -271,7 +290,11 @@ def run_cases(cases, timeout=900, want_release=True):
             else:
                 r[kind] = "<no answer: process died>"
                 r[kind + "_panic"] = True
-        r["model"] = None if c.startswith("!") else outs["model"].get(k, "<no answer: modelrun died>")
+        if c.startswith("slices ") and not c.startswith("!"):
+            n = len(c.split()) - 2
+            r["model"] = " ;; ".join(outs["model"].get("%s.%d" % (k, j), "<no answer: modelrun died>") for j in range(n))
+        else:
+            r["model"] = None if c.startswith("!") else outs["model"].get(k, "<no answer: modelrun died>")
         results.append(r)
     return results, crashes
 
